@@ -155,15 +155,16 @@ def changed (h h' : Heap) : List Nat :=
 
 /-- Does reading/writing along `p` from `r` index *inside* an ndarray leaf?  Such operations are outside
 the model (ndarrays are opaque leaves) and are skipped on both sides by the same rule. -/
-def touchesArr (h : Heap) : Ref → Path → Bool
+def touchesArr (forSet : Bool) (h : Heap) : Ref → Path → Bool
   | _, [] => false
   | _, .self :: _ => false
-  | _, .lit _ _ :: _ => false
   | r, k :: ks =>
-    match h[r]? with
+    if forSet && k == .skip then false
+    else if !forSet && (match k with | .lit _ _ => true | _ => false) then false
+    else match h[r]? with
     | some (.leaf (.arr _)) => true
     | _ => match index h r k with
-      | .ok c => touchesArr h c ks
+      | .ok c => touchesArr forSet h c ks
       | .error _ => false
 
 /-- Does the structure below `r` contain an ndarray leaf (bounded walk)? -/
@@ -214,7 +215,7 @@ def runOp (strict : Bool) (st : St) (j : Json) : Except String (St × Json) := d
   match op with
   | "get" | "getd" =>
     let keys ← parseKeys (← j.getObjVal? "keys")
-    if (keysPaths keys).any (touchesArr h root) then return skipped
+    if (keysPaths keys).any (touchesArr false h root) then return skipped
     let sentinel : GetRes := .one (h.size + 1000000)
     let r := if op == "get" then getItem h root keys else getD h root keys sentinel
     let o := match r with
@@ -228,7 +229,7 @@ def runOp (strict : Bool) (st : St) (j : Json) : Except String (St × Json) := d
     let keys ← parseKeys (← j.getObjVal? "keys")
     let value ← Driver.getNat j "value"
     let inPlace ← Driver.getBool j "in_place"
-    if (keysPaths keys).any (touchesArr h root) then return skipped
+    if (keysPaths keys).any (touchesArr true h root) then return skipped
     if (keysPaths keys).length > 1 && hasArr h (h.size + 1) value then return skipped
     let r := setItem strict inPlace h root keys value
     let root' := match r.2 with | .ok x => some x | .error _ => none
@@ -239,7 +240,7 @@ def runOp (strict : Bool) (st : St) (j : Json) : Except String (St × Json) := d
       match a.toList with
       | [p, v] => do return ((← parsePath p), (← v.getNat?))
       | _ => throw "bad pair"
-    if pairs.any (fun pv => touchesArr h root pv.1) then return skipped
+    if pairs.any (fun pv => touchesArr true h root pv.1) then return skipped
     if pairs.length > 1 && pairs.any (fun pv => hasArr h (h.size + 1) pv.2) then return skipped
     let r := copyAndUpdate strict h root pairs
     let root' := match r.2 with | .ok x => some x | .error _ => none
